@@ -722,6 +722,10 @@ impl TxPoolServiceBuilder {
                             snapshot_clone
                         ).await;
 
+                        // verif hook: the template is blank for the new tip, the pool still holds the old tip's view
+                        #[cfg(feature = "verif-hooks")]
+                        crate::verif::gate("reorg:after-blank-template");
+
                         let snapshot_clone = Arc::clone(&snapshot);
                         service
                         .update_tx_pool_for_reorg(
@@ -731,6 +735,10 @@ impl TxPoolServiceBuilder {
                             snapshot_clone,
                         )
                         .await;
+
+                        // verif hook: the pool has been updated, the template has not been refilled yet
+                        #[cfg(feature = "verif-hooks")]
+                        crate::verif::gate("reorg:after-pool-update");
 
                         service.update_block_assembler_after_tx_pool_reorg().await;
                         #[cfg(feature = "verif-hooks")]
